@@ -490,6 +490,9 @@ pub fn configs(thorough: bool) -> Vec<(String, HCfg)> {
         ("v-dials-x".to_string(), base(vec![Req { from: 0, to: 1, body: Body::Ping, with_enr: true }], 1)),
         ("v-dials-m-noenr".to_string(), base(vec![Req { from: 0, to: 9, body: Body::Find(1), with_enr: false }], 1)),
         ("v-dials-x-noenr".to_string(), base(vec![Req { from: 0, to: 1, body: Body::Ping, with_enr: false }], 1)),
+        // V re-sends an unanswered request once (request_retries = 2)
+        ("v-dials-m-retries2".to_string(), HCfg { retries: 2, ..base(vec![Req { from: 0, to: 9, body: Body::Ping, with_enr: true }], 1) }),
+        ("m-session-v-dials-m".to_string(), base(vec![Req { from: 0, to: 9, body: Body::Ping, with_enr: true }], 1)),
         // X loses its state between two requests of V: V re-keys its session in place (previous keys retained)
         ("v-rekeys-x".to_string(), HCfg { allow_restart: vec![1], ..base(vec![Req { from: 0, to: 1, body: Body::Ping, with_enr: true }, Req { from: 0, to: 1, body: Body::Talk, with_enr: true }], 1) }),
     ];
@@ -498,6 +501,16 @@ pub fn configs(thorough: bool) -> Vec<(String, HCfg)> {
         out.push(("v-dials-both".to_string(), base(vec![Req { from: 0, to: 9, body: Body::Talk, with_enr: true }, Req { from: 0, to: 1, body: Body::Ping, with_enr: false }], 1)));
     }
     out
+}
+
+/// Scripted events executed before the explored history of a world (not charged to the budget).
+pub fn prefix_of(world: &str) -> Vec<Ev> {
+    match world {
+        // the crafted peer M has completed a genuine handshake of its own with V (V holds keys K1
+        // as the recipient) and got its PING answered, before V dials M
+        "m-session-v-dials-m" => vec![Ev::Ext(code(1, 1 << 8)), Ev::AnsWay(0, true), Ev::Deliver(0), Ev::Ext(code(2, 1 << 12 | 1 << 8)), Ev::Respond(0)],
+        _ => vec![],
+    }
 }
 
 pub fn driver(thorough: bool) -> Attack {
@@ -583,7 +596,15 @@ pub fn explore(prop: &str, thorough: bool, budget_s: f64, k_max: u32) -> (mc::St
             let mut cfg = cfg.clone();
             cfg.focus = if prop == "C02" { vec!["C02".to_string(), "C01".to_string()] } else { vec![prop.to_string()] };
             let cfg = &cfg;
-            let stats = mc::explore(&limits, |h: &[Ev]| rt::run(run_history_with(cfg, m.clone(), h, true, d)), |v, _| vio.push(v), |h, o| {
+            let prefix = prefix_of(name);
+            let stats = mc::explore(
+                &limits,
+                |h: &[Ev]| {
+                    let full: Vec<Ev> = prefix.iter().cloned().chain(h.iter().cloned()).collect();
+                    rt::run(run_history_with(cfg, m.clone(), &full, true, d))
+                },
+                |v, _| vio.push(v),
+                |h, o| {
                 let _ = o;
                 smp.push(format!("{:?}", h));
             });
